@@ -35,6 +35,8 @@ var adjStmts = []string{
 	"a", "1", ".5", `"s"`, "f(1)", "a[1]", "a.k", "-a", "!a", "++a", "+a", "^a", "a++", "a + b", "a = 1", "[1]", "{1:2}", "x => x", "(x, y) => x", "() => 1",
 	"func(x) { x }", "func g(x) { x }", "if a { 1 }", "if a { 1 } else { 2 }", "for a { 1 }", "return", "return 1", "break", "(a)", "(a + b) * c", "len(a)",
 	"true", "1e5", "0x1", "e5", "x1", "`r`", "a = [1]", "a = {1:2}", "a = func() { 1 }", "quote(a)", "1.", "0", "0.5", "9", "b1", "_",
+	// statements whose printed form starts with a parenthesis the printer adds or keeps
+	"(1).k", "(1)[0]", "(x => x)(1)", "(-a).k", "(a + b)[0]",
 }
 
 var corpusLiterals = func() []string {
@@ -217,6 +219,25 @@ func forEachCorpusText(c *core.Ctx, opt corpusOpt, f func(family, text string) b
 			}
 		}
 		bounds = append(bounds, fmt.Sprintf("two-level trees: %d parent positions x %d child constructs (parenthesised and bare)", len(parents), len(children)))
+	}
+	// every triple of infix operators in every grouping of four operands
+	{
+		shapes := []string{"a %s (b %s c %s d)", "(a %s b %s c) %s d", "a %s (b %s c) %s d", "a %s b %s (c %s d)", "(a %s b) %s (c %s d)", "a %s (b %s (c %s d))", "((a %s b) %s c) %s d", "a %s b %s c %s d"}
+		for _, o1 := range gen.AllInfix {
+			for _, o2 := range gen.AllInfix {
+				if !chk() {
+					return false, bounds
+				}
+				for _, o3 := range gen.AllInfix {
+					for _, sh := range shapes {
+						if !emit("op3", fmt.Sprintf(sh, o1, o2, o3)) {
+							return false, bounds
+						}
+					}
+				}
+			}
+		}
+		bounds = append(bounds, fmt.Sprintf("all %d^3 triples of infix operators x %d groupings of four operands", len(gen.AllInfix), len(shapes)))
 	}
 	// G-syn single statements
 	for size := 1; size <= opt.fullSize; size++ {
